@@ -141,6 +141,7 @@ Definition block_ok (mon : Z) (m : mstate) (ob : oblock) : bool :=
   | 1%Z => c01_block m ob
   | 2%Z => c02_block m ob
   | 3%Z => c03_block m ob
+  | 13%Z => c02_block m ob   (* "Clear = like new" and the Resize clauses imply the bound of C02 at every swept block *)
   | _ => true
   end.
 Definition block_ok' (mon : Z) (nparts : Z) (m : mstate) (ob : oblock) : bool :=
